@@ -47,7 +47,7 @@ def translate():
     mj = t2.only([s for s in body if isinstance(s, ast.FunctionDef)], 'inner function definitions')
     if mj.name != '_make_jacobian' or [a.arg for a in mj.args.args] != ['V']:
         raise TranslateError('_make_jacobian signature')
-    want = ("if 'hessian' in self.params:\n"
+    want = ("if self.params.get('hessian', False):\n"
             "    return linearize(lambda W: jvp(lambda U: self.form(*U, w), (W,), (V,))[1], x)\n"
             "return linearize(lambda U: self.form(*U, *V, w), x)")
     got = '\n'.join(t2.src(s) for s in mj.body)
